@@ -630,6 +630,7 @@ func runC14(cfg Config) {
 		closeP()
 	}
 	c14CLI(cfg, rep, rng)
+	c14IndexUpstreams(cfg, rep, rng)
 	rep.Write(cfg.Out)
 }
 
